@@ -156,3 +156,51 @@ class Rot:
         i = self.k.get(key, 0)
         self.k[key] = i + 1
         return lst[(i + self.off) % len(lst)]
+
+
+# ---- long, seed-independent streams: code that only runs every 2^10 / 2^12 updates, or after a magnitude cliff ----
+def long_values(n, kind="plain"):
+    """deterministic decimal prices with ties and a period-101 pattern; 'cliff': three values 10^7 times larger first;
+    'spike': one 10^7-times-larger value at positions 300 and 2048"""
+    xs = [100.0 + 0.01 * ((37 * k) % 101) for k in range(n)]
+    if kind == "cliff":
+        xs[0:3] = [1.5e9, 1.2e9, 1.9e9]
+    elif kind == "spike":
+        for q in (300, 2047):
+            if q < n:
+                xs[q] = 1e9
+    return xs
+
+
+def long_feed(ind, n, kind="plain", slot=0):
+    xs = long_values(n, kind)
+    if ind in NO_SCALAR:
+        return [("b", slot, x, x * 1.01, x * 0.99, x * (1.0 + 0.005 * ((k % 3) - 1)), 5.0 + (k % 7)) for k, x in enumerate(xs)]
+    return [("n", slot, x) for x in xs]
+
+
+def long_params(ind, p=3):
+    k = nper(ind)
+    return (p if k >= 1 else 0, 5 if k >= 2 else 0, 2 if k >= 3 else 0, 2.0 if ind in HAS_MULT else 0.0)
+
+
+def ulp_values(r, n, level=None):
+    """prices that move by a few units in the last place: comparisons written with a tolerance instead of == / < show here"""
+    x = level if level is not None else r.choice([0.3, 10.1, 1234.5678, 1e-3])
+    xs = []
+    for _ in range(n):
+        for _ in range(r.choice([0, 1, 1, 2])):
+            x = math.nextafter(x, math.inf if r.random() < 0.5 else -math.inf)
+        xs.append(x)
+    return xs
+
+
+def ulp_bars(r, n, level=None):
+    out = []
+    for x in ulp_values(r, n, level):
+        h = x
+        for _ in range(r.choice([0, 1, 2])):
+            h = math.nextafter(h, math.inf)
+        c = r.choice([x, h])
+        out.append((c, h, x, c, float(r.choice([0, 1, 5, 5]))))
+    return out
